@@ -8,6 +8,7 @@ import (
 	"math/big"
 	"sort"
 	"strings"
+	"sync"
 
 	"github.com/NethermindEth/juno/core"
 	"github.com/NethermindEth/juno/core/crypto"
@@ -221,37 +222,59 @@ func callStorageProof(version string, h9 *rpcv9.Handler, h10 *rpcv10.Handler, cl
 func (c *ctx) rpcSection(r *lib.RNG, out chan<- batch) {
 	res := c.res
 	chains := c.f.Scale(2, 8)
-	blocks := c.f.Scale(14, 40)
+	blocks := c.f.Scale(12, 40)
+	var wg sync.WaitGroup
 	for ci := 0; ci < chains; ci++ {
 		for _, newState := range []bool{false, true} {
 			seed := r.Uint64()
-			gr := lib.NewRNG(seed)
-			opt := lib.DefaultGenOptions()
-			g := lib.NewChainGen(gr, ci%2 == 1, opt)
-			dst, _ := lib.NewNode(g.Net, newState)
-			h9 := rpcv9.New(dst, nil, nil, log.NewNopZapLogger())
-			h10 := rpcv10.New(dst, nil, nil, log.NewNopZapLogger())
-			for bi := 0; bi < blocks; bi++ {
-				b, err := g.Next(nil)
-				if err != nil {
-					res.Note("rpc: chain generator: %v", err)
-					break
-				}
-				if err := lib.StoreOn(dst, b); err != nil {
-					res.Note("rpc: store block %d: %v", bi, err)
-					break
-				}
-				if bi != 0 && bi != blocks-1 && !gr.Chance(1, 2) {
-					continue
-				}
-				for _, version := range []string{"v9", "v10"} {
-					for q := 0; q < 2; q++ {
-						c.rpcQuery(gr, g, version, newState, seed, h9, h10, out)
+			wg.Add(1)
+			go func(ci int, newState bool, seed uint64) {
+				defer wg.Done()
+				gr := lib.NewRNG(seed)
+				opt := lib.DefaultGenOptions()
+				// even chains never declare classes: the classes trie stays empty across the 0.14.0
+				// switch of the state commitment formula
+				opt.NoClasses = ci%2 == 0
+				g := lib.NewChainGen(gr, ci%2 == 1, opt)
+				dst, _ := lib.NewNode(g.Net, newState)
+				h9 := rpcv9.New(dst, nil, nil, log.NewNopZapLogger())
+				h10 := rpcv10.New(dst, nil, nil, log.NewNopZapLogger())
+				for bi := 0; bi < blocks; bi++ {
+					// the first third of the chain predates 0.14.0
+					spec := &lib.BlockSpec{}
+					switch {
+					case bi < blocks/3:
+						spec.Version = lib.Pick(gr, []string{"0.13.2", "0.13.4"})
+						if bi > 0 && g.Head().Block.ProtocolVersion == "0.13.4" {
+							spec.Version = "0.13.4"
+						}
+					case bi < 2*blocks/3:
+						spec.Version = "0.14.0"
+					default:
+						spec.Version = "0.14.1"
+					}
+					b, err := g.Next(spec)
+					if err != nil {
+						res.Note("rpc: chain generator: %v", err)
+						return
+					}
+					if err := lib.StoreOn(dst, b); err != nil {
+						res.Note("rpc: store block %d: %v", bi, err)
+						return
+					}
+					if bi != 0 && bi != blocks-1 && bi != blocks/3 && !gr.Chance(1, 2) {
+						continue
+					}
+					for _, version := range []string{"v9", "v10"} {
+						for q := 0; q < 2; q++ {
+							c.rpcQuery(gr, g, version, newState, seed, h9, h10, out)
+						}
 					}
 				}
-			}
+			}(ci, newState, seed)
 		}
 	}
+	wg.Wait()
 }
 
 func (c *ctx) rpcQuery(r *lib.RNG, g *lib.ChainGen, version string, newState bool, seed uint64,
